@@ -2488,6 +2488,14 @@ func (s *scanner) processScannedFiles(entryPointMeta []graph.EntryPoint) []scann
 				// Skip this import record if the previous resolver call failed
 				resolveResult := result.resolveResults[importRecordIndex]
 				if resolveResult == nil || !record.SourceIndex.IsValid() {
+					// Unused imports (e.g. type-only TypeScript imports) and the parser's
+					// own import of the runtime are not imports that this file makes
+					if record.Flags.Has(ast.IsUnused) {
+						continue
+					}
+					if record.SourceIndex == ast.MakeIndex32(runtime.SourceIndex) {
+						continue
+					}
 					if s.options.NeedsMetafile {
 						if isFirstImport {
 							isFirstImport = false
